@@ -233,6 +233,11 @@ class SimulatorBase(
             if self._can_be_in_run_prefix(self.noise)
             else (resolved_circuit[0:0], resolved_circuit)
         )
+        if self.noise is not devices.NO_NOISE and len(prefix) + len(general_suffix) != len(
+            resolved_circuit
+        ):
+            # The split cut through a moment: each half would be given the noise of that moment.
+            prefix, general_suffix = resolved_circuit[0:0], resolved_circuit
         step_result: TStepResultBase | None = None
         for step_result in self._core_iterator(
             circuit=prefix, sim_state=sim_state, noise_qubits=qubits
@@ -325,9 +330,11 @@ class SimulatorBase(
         )
         if self.noise is not devices.NO_NOISE and not (
             prefix.all_qubits() == suffix.all_qubits() == program.all_qubits()
+            and len(prefix) + len(suffix) == len(program)
         ):
             # The noise model is asked for the noise of each part with that part's qubits as
-            # the system: only split when no qubit of the program is idle in a whole part.
+            # the system: only split when no qubit of the program is idle in a whole part and
+            # no moment is cut in two (each half would be given the noise of that moment).
             prefix, suffix = program[0:0], program
         step_result: TStepResultBase | None = None
         for step_result in self._core_iterator(circuit=prefix, sim_state=sim_state):
